@@ -104,7 +104,13 @@ func genConc(c *genCtx) error {
 	for ri, procs := range rounds {
 		old := runtime.GOMAXPROCS(procs)
 		start := make(chan struct{})
-		var wg sync.WaitGroup
+		var wg, ready sync.WaitGroup
+		ready.Add(G)
+		order := rand.New(rand.NewSource(c.seed*77 + int64(ri))).Perm(len(inputs)) // the same windows for every goroutine
+		barrier := make([]sync.WaitGroup, 2+len(inputs)/6+1)
+		for i := range barrier {
+			barrier[i].Add(G)
+		}
 		for g := 0; g < G; g++ {
 			wg.Add(1)
 			go func(g int) {
@@ -116,13 +122,21 @@ func genConc(c *genCtx) error {
 				warmUp(&rd)
 				used := &rjson.Buffer{}
 				var j jb
-				order := rng.Perm(len(inputs))
+				// all preparation (which takes global runtime locks, e.g. when a sync.Pool is first used) is
+				// finished by every goroutine before any of them starts
+				ready.Done()
 				<-start
-				// first-use storm: every goroutine touches every entry point (and every value of the exported
-				// TokenType) at once, so that anything initialised lazily or cached on first use is hit concurrently
+				// Phase 0, the first-use storm: every goroutine touches every value of the exported TokenType and
+				// every entry point on tiny inputs at once, so that anything initialised lazily or cached on first
+				// use is hit concurrently.  The race detector forgets old accesses after a bounded number of
+				// synchronisation events (its epochs are small and a global reset wipes the shadow memory), so
+				// conflicting accesses must be close together: the work is therefore done in phases separated by
+				// barriers, and within a phase all goroutines work on the same small window of inputs.
 				for t := 0; t < 256; t++ {
 					_ = rjson.TokenType(t).String()
 				}
+				barrier[0].Done()
+				barrier[0].Wait()
 				for _, tiny := range []string{"1", `"\u00e9\ud83d\ude00"`, "[1e400]", `{"a":[1,{"b":}]}`, "1.00000000000000011102230246251565404236316680908203125", "nul", "-"} {
 					d := []byte(tiny)
 					writeDoc(po, gc.sws["parse"], &j, d, nil, gc.st)
@@ -133,39 +147,51 @@ func genConc(c *genCtx) error {
 					runTok(gc.sws["values"], &j, d, gc.st)
 					runSan(gc.sws["values"], &j, d, nil, 1, gc.st)
 				}
-				for n, idx := range order {
-					in := inputs[idx]
-					if n%64 == 0 {
-						runtime.Gosched()
+				const window = 6
+				for ph := 0; ph*window < len(order); ph++ {
+					barrier[1+ph].Done()
+					barrier[1+ph].Wait()
+					lo := ph * window
+					hi := lo + window
+					if hi > len(order) {
+						hi = len(order)
 					}
-					switch in.kind {
-					case "doc":
-						writeDoc(po, gc.sws["parse"], &j, in.data, nil, gc.st)
-						runTreeWith(&rd, gc.sws["trees"], &j, in.data, nil, gc.st)
-						kind := byte('A')
-						if firstNonWS(in.data) == '{' {
-							kind = 'O'
+					win := append([]int{}, order[lo:hi]...)
+					if g%2 == 1 { // half of the goroutines walk the window in their own order
+						rng.Shuffle(len(win), func(a, b int) { win[a], win[b] = win[b], win[a] })
+					}
+					for _, idx := range win {
+						in := inputs[idx]
+						switch in.kind {
+						case "doc":
+							writeDoc(po, gc.sws["parse"], &j, in.data, nil, gc.st)
+							runTreeWith(&rd, gc.sws["trees"], &j, in.data, nil, gc.st)
+							kind := byte('A')
+							if firstNonWS(in.data) == '{' {
+								kind = 'O'
+							}
+							runHandle(gc.sws["handlers"], &j, kind, in.data, nil, answer{mode: modeZero}, used, gc.st, "conc")
+							runHandle(gc.sws["handlers"], &j, kind, in.data, nil, answer{mode: modeExact}, nil, gc.st, "conc")
+						case "num":
+							runInt(gc.sws["values"], &j, in.data, gc.st)
+							runFloat(gc.sws["floats"], &j, in.data, gc.st)
+						case "str":
+							runStr(gc.sws["values"], &j, in.data, rng.Intn(8), gc.st)
+						case "tok":
+							runTok(gc.sws["values"], &j, in.data, gc.st)
+							for t := 0; t < 256; t += 1 + rng.Intn(3) {
+								_ = rjson.TokenType(t).String() // every value of the exported type, defined or not
+							}
+						case "dec":
+							runDecode(gc.sws["values"], &j, rng.Intn(len(decodeFns)), in.data, gc.st)
+						case "san":
+							runSan(gc.sws["values"], &j, in.data, []byte("p"), 2, gc.st)
 						}
-						runHandle(gc.sws["handlers"], &j, kind, in.data, nil, answer{mode: modeZero}, used, gc.st, "conc")
-						runHandle(gc.sws["handlers"], &j, kind, in.data, nil, answer{mode: modeExact}, nil, gc.st, "conc")
-					case "num":
-						runInt(gc.sws["values"], &j, in.data, gc.st)
-						runFloat(gc.sws["floats"], &j, in.data, gc.st)
-					case "str":
-						runStr(gc.sws["values"], &j, in.data, rng.Intn(8), gc.st)
-					case "tok":
-						runTok(gc.sws["values"], &j, in.data, gc.st)
-						for t := 0; t < 256; t += 1 + rng.Intn(3) {
-							_ = rjson.TokenType(t).String() // every value of the exported type, defined or not
-						}
-					case "dec":
-						runDecode(gc.sws["values"], &j, rng.Intn(len(decodeFns)), in.data, gc.st)
-					case "san":
-						runSan(gc.sws["values"], &j, in.data, []byte("p"), 2, gc.st)
 					}
 				}
 			}(g)
 		}
+		ready.Wait()
 		close(start)
 		wg.Wait()
 		runtime.GOMAXPROCS(old)
